@@ -291,6 +291,8 @@ def run(c):
     c.extra["rejected_under_load_not_reproduced"] = unreproduced
     kernel_half(c)
     late_record(c)
+    stalled_consume(c)
+    real_audit_map(c)
     c.rule = ("histories = every sequence of 5 operations (connect attributed as root->WireServer / user->IMDS or direct, on "
               "either of two source ports incl. reuse; request; close) over two connection slots printed by TLC; plus a "
               "concurrent stress run with keep-alive and immediate port reuse")
@@ -368,6 +370,48 @@ def late_record(c, prop="C07"):
                     {"rows": rows})
 
 
+def stalled_consume(c, prop="C07"):
+    """The read-then-consume of the record at accept has suspension points (an actor round trip each, H9 gates stand for
+    them).  The accept path is held there for longer than any plausible guard timer (450 ms and 1.3 s) and let go: the
+    connection must then be served with its own identity or refused, and in EITHER case the record must be gone -- a
+    direct connection that reuses the source port afterwards is unattributed."""
+    steps, meta = [], []
+    root_ws = {k2: IDENT["rootws"][k2] for k2 in ("uid", "admin", "dip", "dport")}
+    i = 0
+    for label in ("redirector.remove_audit.begin", "redirector.lookup_audit.done"):
+        for hold in (450, 1300):
+            a, b = "sc_a%d" % i, "sc_b%d" % i
+            steps += [{"op": "arm", "label": label, "skip": 0},
+                      {"op": "connect", "conn": a, "attr": root_ws},
+                      {"op": "wait_arrived", "label": label, "n": 1, "timeout_ms": 3000},
+                      {"op": "sleep", "ms": hold}, {"op": "release", "label": label}, {"op": "disarm", "label": label},
+                      {"op": "request", "conn": a, "id": a + "_r", "method": "GET", "target": "/stall/%d" % i, "headers": [["Host", "h"]]},
+                      {"op": "close", "conn": a}, {"op": "sleep", "ms": 50},
+                      {"op": "connect", "conn": b, "port_of": a, "attr": None},
+                      {"op": "request", "conn": b, "id": b + "_r", "method": "GET", "target": "/stall/%d/again" % i, "headers": [["Host", "h"]]},
+                      {"op": "close", "conn": b}]
+            meta += [{"e": "conn", "conn": a, "attributed": True, "elevated": True, "dest": "ws", "may_refuse": True},
+                     {"e": "req", "conn": a, "id": a + "_r"},
+                     {"e": "conn", "conn": b, "attributed": False, "elevated": False, "dest": "none"},
+                     {"e": "req", "conn": b, "id": b + "_r"}]
+            i += 1
+    ev, d_, _ = rig.run_rig({"steps": steps, "drain_ms": 300}, "stall_%s" % prop.lower(), timeout=300)
+    arrived = [e for e in ev if e["e"] == "Arrived"]
+    if len(arrived) != i or any(e["n"] < 1 for e in arrived):
+        raise util.ToolError("stalled-consume scenario: the accept path did not reach the gate (%s)" % arrived)
+    failed_ = {e["conn"] for e in ev if e["e"] == "ConnectError"}
+    if failed_:
+        raise util.ToolError("stalled-consume scenario: connects failed: %s" % sorted(failed_))
+    rows = rows_from(ev, meta)
+    c.extra["stalled_consume_rounds"] = i
+    inherited = [r for r in rows if r["e"] == "req" and r["id"].startswith("sc_b") and (r["relayed"] or r["status"] != 421)]
+    if inherited:
+        c.violation("the record of a connection whose accept-time read-then-consume was held up stays behind: a later direct "
+                    "connection from the same source port is served with it: %s" % inherited[0],
+                    {"broken": "P_C07_UnattributedRefused", "scenario": "stalled-consume"}, {"rows": rows})
+    c.extra["stalled_consume_first_statuses"] = sorted({str(r.get("status")) for r in rows if r["e"] == "req" and r["id"].startswith("sc_a")})
+
+
 def kernel_half(c):
     """'... are those recorded by the kernel for that very connection': the kernel program's side of single use -- a later
     connection from a source port that still carries an unconsumed record of an earlier connection gets its OWN record
@@ -378,6 +422,16 @@ def kernel_half(c):
                                     "record-ip", "record-port"):
             c.violation("the kernel program publishes, under a connection's source port, a record that is not that connection's own: " + f["whats"][0],
                         {"kind": "kernel-record-not-the-connections-own"}, {"witness": f.get("witness"), "sites": f["sites"]})
+
+
+def real_audit_map(c):
+    """'consumed at accept' on the REAL kernel map: the tree's eBPF object loaded with BpfObject::from_ebpf_file (nothing
+    attached), records published the way the kernel hook does, the real lookup_audit / remove_audit (the verification
+    stand-in is off) while three threads rewrite the redirect policy; after every round the record must be gone from
+    audit_map (spec/trace/PolicyMapTrace P_ConsumedAbsent; checks/realmaps.py)."""
+    from checks import realmaps
+    c.assumptions.append(realmaps.ASSUME)
+    realmaps.consume_under_contention(c)
 
 
 def replay(c, path):
